@@ -2,4 +2,4 @@ From Coq Require Extraction ExtrOcamlBasic.
 From PV Require Import Lib.Bytes Gen.ShellGrammar Gen.ShellTables Model.ShellLex Model.ShellLR
   Spec.PosixSh Spec.Derivation.
 Extraction "C11_model.ml" shell_lex lr_parse_terms lr_accepts_certified check_trace tok_code
-  tokens terms wf_words supported flow_clist sw_clist faithful productions nt_number start_symbol.
+  tokens terms wf_words wf_words_posix supported faithful productions nt_number start_symbol.
